@@ -96,6 +96,7 @@ pub fn reset() {
         TREE_ROOT_READ = false;
         TREE_CHILD_READ = false;
         TREELOG_LEN = 0;
+        NO_FAILURES = false;
     }
 }
 
@@ -173,8 +174,17 @@ fn choose_err() -> usize {
     v
 }
 
+/// when set, no system call fails (used where symbolic failures make a harness intractable: stated there)
+pub static mut NO_FAILURES: bool = false;
+pub fn set_no_failures(b: bool) {
+    unsafe { NO_FAILURES = b }
+}
+
 /// 0 or an error
 fn choose_zero_or_err() -> usize {
+    if unsafe { NO_FAILURES } {
+        return 0;
+    }
     let v = choose(2);
     #[cfg(kani)]
     kani::assume(v == 0 || is_err(v));
@@ -552,7 +562,7 @@ pub unsafe fn dispatch(n: usize, args: [usize; 7], nargs: u8) -> usize {
     }
     let ret: usize;
     if mode & MODE_FDS != 0 && creates_fd(n) {
-        let fail = choose(3) != 0;
+        let fail = !NO_FAILURES && choose(3) != 0;
         ret = if fail { choose_err() } else { fd_fresh() };
         if !fail && n == nr::IO_URING_SETUP {
             // kernel contract of io_uring_setup: the params out-parameter (struct io_uring_params,
